@@ -92,6 +92,14 @@ type G struct {
 	Excluded      map[string]int // cases steered away from a listed known finding
 	inArrowParams int
 	noReturn      bool // inside a class static block or field initializer
+
+	// re-use of lexical names in disjoint scopes: let/const names declared at the statement level of a block or function
+	// body are retired when that scope is closed and may then be declared again with let/const in any scope that is open
+	// (a sibling block, an enclosing block after the inner one, another function): legal, and it exercises scope entry/exit
+	lexScopes [][]string
+	retired   []string
+	forceName string // the next Binding is this identifier
+	Reused    int
 }
 
 func New(t *rapid.T) *G {
@@ -633,6 +641,11 @@ func (g *G) object() Out {
 
 // Binding generates a binding identifier or pattern; every bound name is fresh
 func (g *G) Binding(allowPattern bool) Out {
+	if g.forceName != "" {
+		n := g.forceName
+		g.forceName = ""
+		return Out{tk(n), n}
+	}
 	if !allowPattern || g.depth > g.MaxDepth || !g.chance("pattern", 4) {
 		n := g.newName()
 		return Out{tk(n), n}
@@ -765,11 +778,14 @@ func (g *G) body() Out {
 	if g.depth > g.MaxDepth {
 		n = 0
 	}
+	g.lexScopes = append(g.lexScopes, nil)
 	for i := 0; i < n; i++ {
 		s := g.Stmt()
 		toks = append(toks, s.Toks...)
 		sb.WriteString(" " + s.Str)
 	}
+	g.retired = append(g.retired, g.lexScopes[len(g.lexScopes)-1]...)
+	g.lexScopes = g.lexScopes[:len(g.lexScopes)-1]
 	return Out{append(toks, Tok{S: "}"}), sb.String() + " })"}
 }
 
@@ -1059,11 +1075,14 @@ func (g *G) block() Out {
 	if g.depth > g.MaxDepth {
 		n = 0
 	}
+	g.lexScopes = append(g.lexScopes, nil)
 	for i := 0; i < n; i++ {
 		s := g.Stmt()
 		toks = append(toks, s.Toks...)
 		sb.WriteString(" " + s.Str)
 	}
+	g.retired = append(g.retired, g.lexScopes[len(g.lexScopes)-1]...)
+	g.lexScopes = g.lexScopes[:len(g.lexScopes)-1]
 	return Out{append(toks, Tok{S: "}"}), sb.String() + " })"}
 }
 
@@ -1090,6 +1109,27 @@ func (g *G) Stmt() Out {
 		switch g.intn("declkind", 12) {
 		case 0:
 			g.Kinds["let"]++
+			if k := len(g.lexScopes); k > 0 {
+				// the first declarator is a plain identifier that belongs to this scope: either a name that was declared
+				// with let/const in a scope that is closed by now, or a fresh one
+				var n string
+				if len(g.retired) > 0 && g.chance("reuse", 2) {
+					i := len(g.retired) - 1 // the name retired last: the scope next door, or the one just closed inside this one
+					if g.chance("anyretired", 2) {
+						i = g.intn("retired", len(g.retired))
+					}
+					n = g.retired[i]
+					g.retired = append(g.retired[:i:i], g.retired[i+1:]...)
+					g.Reused++
+					g.Kinds["let-reused-name"]++
+				} else if g.chance("plainlet", 2) {
+					n = g.newName()
+				}
+				if n != "" {
+					g.lexScopes[k-1] = append(g.lexScopes[k-1], n)
+					g.forceName = n
+				}
+			}
 			d := g.varDecl(g.pick("lexkind", []string{"let", "const"}), false, true)
 			return Out{cat(d.Toks, semi()), d.Str}
 		case 1:
@@ -1107,6 +1147,11 @@ func (g *G) Stmt() Out {
 func (g *G) SubStmt() Out {
 	g.depth++
 	defer func() { g.depth-- }()
+	if g.depth <= g.MaxDepth && g.chance("blockbody", 3) {
+		// the usual body of a loop or conditional: a block (a scope of its own)
+		g.Kinds["block-body"]++
+		return g.block()
+	}
 	return g.subStmt()
 }
 
